@@ -25,8 +25,10 @@ NoM == ""
 Machines == DOMAIN cfg.mach
 ObsNames == DOMAIN cfg.obs
 K == cfg.K
-Cpu(m) == cfg.mach[m].cpu
-Bw(m) == cfg.mach[m].bw
+(* total: a machine that is not part of the cluster (a user algorithm may  *)
+(* propose one) gets the speed of an arbitrary cluster machine             *)
+Cpu(m) == IF m \in DOMAIN cfg.mach THEN cfg.mach[m].cpu ELSE cfg.mach[CHOOSE x \in DOMAIN cfg.mach : TRUE].cpu
+Bw(m) == IF m \in DOMAIN cfg.mach THEN cfg.mach[m].bw ELSE cfg.mach[CHOOSE x \in DOMAIN cfg.mach : TRUE].bw
 OCfg(o) == cfg.obs[o]
 Nodes(o) == cfg.obs[o].nodes
 Edges(o) == cfg.obs[o].edges
